@@ -159,6 +159,16 @@ def _r2(chk, repo, model):
     from .common import canon_fn
     from ..pathtable import table
     from ..pattern import norm as pn
+    # the geometry of a CUQIarray is compared with the model's geometry by VALUE: an identity test treats an equal geometry that is another object
+    # (rebuilt, deep-copied model) as foreign and converts already converted values again
+    for hname in ("_2fun", "_2par"):
+        hsrc = repo.method(model, hname)[1]
+        ident = [c_ for c_ in ast.walk(hsrc) if isinstance(c_, ast.Compare) and len(c_.ops) == 1 and isinstance(c_.ops[0], (ast.Is, ast.IsNot))
+                 and any(isinstance(z, ast.Attribute) and z.attr == "geometry" for z in [c_.left] + c_.comparators)
+                 and not any(isinstance(z, ast.Constant) and z.value is None for z in [c_.left] + c_.comparators)]
+        chk.add("C12-R2", f"{model.qual}.{hname}/geometry-by-value", not ident, site(repo, ident[0] if ident else hsrc), "geometries compared with ==",
+                f"`{unparse(ident[0]) if ident else ''}` compares geometries by identity: a CUQIarray carrying an equal geometry that is a different object is "
+                f"not recognised as already being in the model's representation (function values are mapped through par2fun a second time)", ident[0] if ident else hsrc)
     src = repo.method(model, "_2fun")[1]
     f2 = canon_fn(repo, model, src, 2)
     x, geo, ip = func_params(f2)[1:4]
